@@ -114,7 +114,7 @@ func genCase(r *vh.Rand, thorough bool) string {
 			ops = append(ops, closeOps...)
 			break
 		}
-		switch x := r.Intn(172); {
+		switch x := r.Intn(176); {
 		case x < 16:
 			nkey += uint64(1 + r.Intn(2))
 			p := gprop{uint64(1 + r.Intn(3)), uint64(1 + r.Intn(2)), nkey}
@@ -378,6 +378,44 @@ func genCase(r *vh.Rand, thorough bool) string {
 			emit("AU %d %d %d %d %d %d %d", p.cid, p.sid, p.key, r.Intn(1000), rej, applied([]uint64{0, 1, 5, 7, 10}), ign)
 		case x < 170:
 			emit("NG")
+		case x < 174:
+			// single-slot tables: a retry at / just after the deadline of the request that occupies the
+			// slot, after the step worker took it from the channel and before the table's gc ran
+			// (node.tick and node.gc are separate steps)
+			to := []uint64{1, 2, 3, 5}[r.Intn(4)]
+			kind, take, gcop := "C", "TC", "GC"
+			if r.Chance(1, 2) {
+				kind, take, gcop = "S", "TS", "GS"
+			}
+			nkey++
+			emit("%s %d %d", kind, nkey, to)
+			if kind == "C" {
+				ccs = append(ccs, nkey)
+			} else {
+				sss = append(sss, nkey)
+			}
+			nreq++
+			if r.Chance(4, 5) {
+				emit(take)
+			}
+			tick += to + uint64(r.Intn(3)) - uint64(r.Intn(2))
+			emit("T %d", tick)
+			if r.Chance(1, 4) {
+				emit(gcop)
+			}
+			nkey++
+			emit("%s %d %d", kind, nkey, genTimeout(r))
+			if kind == "C" {
+				ccs = append(ccs, nkey)
+			} else {
+				sss = append(sss, nkey)
+			}
+			nreq++
+			if r.Chance(1, 2) {
+				emit("Q")
+				emit("Q")
+				nreq += 2
+			}
 		default:
 			// a client that polls and releases right away
 			i := r.Intn(nreq + 1)
